@@ -294,6 +294,25 @@ def unit_config(layout, presence, fixed_h=False, timeout_ms=30000):
     return out
 
 
+REPLAY_FALLBACK = common.REPLAY_HEADER + '''
+common.use_repo_with_build()
+import types
+from pysph.solver.solver import Solver
+v, ret_none, adaptive = %(vals)r, %(ret_none)r, %(adaptive)r
+s = Solver.__new__(Solver)
+s.dt = v["dt"]; s._damping_factor = v["damp"]; s.adaptive_timestep = adaptive
+s.cfl = 0.3; s.in_parallel = False
+s.integrator = types.SimpleNamespace(compute_time_step=lambda d, cfl: None if ret_none else v["adt"])
+got = s._compute_timestep()
+exp = v["dt"]/v["damp"] if (ret_none or not adaptive) else v["adt"]
+print(got, exp)
+bad = None
+if abs(got - exp) > 1e-12*abs(exp):
+    bad = "_compute_timestep returned %%r, expected %%r" %% (got, exp)
+sys.exit(common.replay_exit(bad))
+'''
+
+
 def unit_solver_fallback():
     """Solver._compute_timestep keeps the fixed step iff the integrator
     returns None (adaptive on, serial)."""
@@ -330,13 +349,22 @@ def unit_solver_fallback():
                 if r == "unsat":
                     out["discharged"] += 1
                 elif r == "sat":
-                    out.setdefault("violations_unreplayed", []).append(
-                        "fallback ret_none=%s adaptive=%s" % (ret_none,
-                                                              adaptive))
-                    out.setdefault("harness_errors", []).append(
-                        "Solver._compute_timestep fallback differs "
-                        "(ret_none=%s adaptive=%s); no replay written" %
-                        (ret_none, adaptive))
+                    from vf.symx import model_value
+                    vals = dict((k, float(model_value(model, v.t)))
+                                for k, v in (("dt", dt), ("adt", adt),
+                                             ("damp", damp)))
+                    p = common.write_replay(
+                        PID, "fallback_%s_%s" % (ret_none, adaptive),
+                        REPLAY_FALLBACK % dict(vals=vals, ret_none=ret_none,
+                                               adaptive=adaptive))
+                    common.triage(
+                        PID, out, "Solver._compute_timestep (integrator "
+                        "returns %s, adaptive_timestep=%s) does not return "
+                        "%s" % ("None" if ret_none else "a step", adaptive,
+                                "the undamped fixed step" if
+                                (ret_none or not adaptive) else
+                                "the integrator's step"), p,
+                        dict(unit="Solver._compute_timestep"))
                 else:
                     out["undecided"].append("fallback")
     out["stats"] = stats.as_dict()
